@@ -3,7 +3,7 @@
 # Confirms in a scratch worktree (outside /repo and /verif): demo passes on the clean tree, fails with the
 # patch, and the unedited existing suite (with and without the serde feature) passes with the patch.
 D="$(readlink -f "$1")"
-WT=/tmp/val_wt
+WT=${VAL_WT:-/tmp/val_wt}
 if [ ! -d "$WT" ]; then git -C /repo worktree add -q --detach "$WT" HEAD && cp /repo/Cargo.lock "$WT"/; fi
 cd "$WT" || exit 9
 git checkout -q --detach "$(git -C /repo rev-parse HEAD)" 2>/dev/null
